@@ -16,8 +16,20 @@
 (* Time is in nanoseconds as in the code (block timestamps); the clock     *)
 (* visits, for every millisecond, its first and last nanosecond (and the   *)
 (* two nanoseconds around a non-aligned init timestamp).                   *)
-(* Validators are 1..n in the configured order; candidate proposer 0 is    *)
-(* the empty proposer field, n+1 an address outside the validator set.     *)
+(* Validators are numbers 1..u (u = size of the universe of addresses that *)
+(* occur in any validator set of the configuration); the configured        *)
+(* initial set is <<1, ..., n>> in this order; candidate proposer 0 is the *)
+(* empty proposer field, u+1 an address outside every validator set.       *)
+(*                                                                         *)
+(* The validator set IN FORCE for a candidate block is a dimension of the  *)
+(* model: it is read from the chain the verifying node holds (XPoA: the    *)
+(* set recorded in the contract storage as of the block four below the     *)
+(* candidate, the configured initial set during the first three heights    *)
+(* of the consensus instance - xpoaSchedule.GetLocalValidates /            *)
+(* getValidates; TDPoS: see below).  It may differ from the initial set    *)
+(* and from the verifying node's own current set (field node) in size,     *)
+(* membership and order; entitlement and tiling are stated over the set    *)
+(* in force, and the node's own set never matters.                         *)
 (***************************************************************************)
 EXTENDS Integers, Sequences, FiniteSets, TLC, SequencesExt
 
